@@ -10,7 +10,11 @@
 // goroutine.
 package simrt
 
-import "runtime"
+import (
+	"cmp"
+	"runtime"
+	"slices"
+)
 
 // ReqKind is the reason a task hands control to the scheduler.
 type ReqKind uint8
@@ -341,4 +345,24 @@ func InitHits(n int) []uint32 {
 		out[i] = initHits[i]
 	}
 	return out
+}
+
+// MapKeys is the map-iteration seam: the keys of m, sorted and then permuted
+// by a draw from the run's PRNG (sorted order outside a run).
+func MapKeys[M ~map[K]V, K cmp.Ordered, V any](m M) []K {
+	keys := make([]K, 0, len(m))
+	for k := range m {
+		keys = append(keys, k)
+	}
+	slices.Sort(keys)
+	if len(keys) > 1 {
+		if n, _, ok := Ask(ReqRand, OpRand, 0, 0, nil); ok {
+			r := RNG{s: uint64(n)}
+			for i := len(keys) - 1; i > 0; i-- {
+				j := r.Intn(i + 1)
+				keys[i], keys[j] = keys[j], keys[i]
+			}
+		}
+	}
+	return keys
 }
